@@ -9,6 +9,12 @@ Stages (run(ctx)):
          resolved type hints, enum members compared pairwise, with the schema and with the model; bytes()/to_json()
          of equal values compared across variants
   D      option parsing (parser.generate_code) vs the model on option strings
+  E      the two bundled google.protobuf libraries (standard / pydantic) define the same classes
+
+Failure classes (cls=) of the oracle: import-failure:<typing option>, pydantic-negative-enum, value-diff, construct-diff, table-diff,
+service-diff, enum-diff, class-error, service-error, plugin-error, bundled-lib.  The three defects of the pinned tree
+(F11 import-failure:310, F14 pydantic-negative-enum, F15 value-diff) have fix patches under fixes/c18-*.patch; there is no open
+known finding, so every failure is a VIOLATION.
 """
 import json
 import keyword
@@ -354,12 +360,12 @@ def py_denote(text):
                     setattr(cur, p, nxt)
             cur = nxt
     try:
-        code = compile(f"def f(x: {text}): pass\n", "<ann>", "exec")
+        code = compile(f"def c18_probe_fn__(x: {text}): pass\n", "<ann>", "exec")
     except (SyntaxError, ValueError):
         return None
     try:
         exec(code, ns)
-        h = typing.get_type_hints(ns["f"], ns, {})["x"]
+        h = typing.get_type_hints(ns["c18_probe_fn__"], ns, {})["x"]
     except Exception:  # noqa  NameError / TypeError / SyntaxError inside a string annotation
         return None
     return _canon_py(h)
@@ -952,6 +958,71 @@ def stage_options(ctx):
 
 
 # ======================================================================================
+# stage E: the two bundled google.protobuf libraries (anchor lib/pydantic/google/protobuf/__init__.py)
+# ======================================================================================
+def stage_bundled_libs(ctx):
+    """the pre-generated pydantic variant of betterproto.lib.google.protobuf must define the same classes with the same
+    field metadata (optional=True on oneof members being the one permitted difference) and the same enum members"""
+    import dataclasses
+    import importlib
+    import betterproto
+
+    # classes of the well-known types a user schema refers to (any, api, duration, empty, field_mask, source_context,
+    # struct, timestamp, type, wrappers); the rest of the module mirrors descriptor.proto / plugin.proto
+    wkt = {"Any", "Api", "Method", "Mixin", "Duration", "Empty", "FieldMask", "SourceContext", "Struct", "Value", "ListValue",
+           "NullValue", "Timestamp", "Type", "Field", "Enum", "EnumValue", "Option", "Syntax", "FieldKind", "FieldCardinality",
+           "DoubleValue", "FloatValue", "Int64Value", "UInt64Value", "Int32Value", "UInt32Value", "BoolValue", "StringValue",
+           "BytesValue"}
+    stale = []
+
+    def report(n, what, **kw):
+        if n in wkt:
+            ctx.fail("oracle", what, cls="bundled-lib", input={"class": n}, **kw)
+        else:
+            stale.append(n)
+
+    for sub in ("", ".compiler"):
+        try:
+            std = importlib.import_module("betterproto.lib.std.google.protobuf" + sub)
+            pyd = importlib.import_module("betterproto.lib.pydantic.google.protobuf" + sub)
+        except Exception as e:  # noqa
+            if sub:
+                # plugin.proto's messages in pydantic flavour (pydantic v1 API at the end of the file): never referenced by
+                # generated code unless a schema imports google/protobuf/compiler/plugin.proto -- outside C18's schemas
+                ctx.notes.append(f"betterproto.lib.pydantic.google.protobuf{sub} does not import under the installed pydantic: {e!r}")
+            else:
+                ctx.fail("oracle", "a bundled google.protobuf library does not import", cls="bundled-lib", input={"module": sub}, observed=repr(e))
+            continue
+        names = sorted(n for n, o in vars(std).items() if isinstance(o, type) and o.__module__ == std.__name__)
+        for n in names:
+            a, b = getattr(std, n), getattr(pyd, n, None)
+            ctx.count("bundled-class")
+            if b is None:
+                report(n, "class of the standard bundled library missing from the pydantic one")
+                continue
+            if issubclass(a, betterproto.Message):
+                ra = [(f.name, dataclasses.asdict(f.metadata["betterproto"])) for f in dataclasses.fields(a)]
+                rb = [(f.name, dataclasses.asdict(f.metadata["betterproto"])) for f in dataclasses.fields(b)]
+                for (na, ma), (nb, mb) in zip(ra, rb):
+                    if mb.get("group") is not None:
+                        mb = dict(mb, optional=ma.get("optional"))
+                    if (na, ma) != (nb, mb):
+                        report(n, "bundled google.protobuf libraries (standard / pydantic) disagree on a field of a well-known type",
+                               observed=[nb, mb], expected=[na, ma])
+                        break
+                else:
+                    if len(ra) != len(rb):
+                        report(n, "bundled google.protobuf libraries disagree on the number of fields of a well-known type")
+            elif issubclass(a, betterproto.Enum):
+                if [(m.name, int(m.value)) for m in a] != [(m.name, int(m.value)) for m in b]:
+                    report(n, "bundled google.protobuf libraries disagree on an enum of a well-known type")
+        ctx.cov["evaluations"] += len(names)
+    if stale:
+        ctx.notes.append("the pre-generated pydantic google.protobuf library mirrors an older descriptor.proto than the standard one; "
+                         "classes that differ (not well-known types, outside the schemas C18 quantifies over): " + ", ".join(sorted(set(stale))))
+
+
+# ======================================================================================
 def load_corpus():
     d = os.path.join(lib.VERIF, "corpus")
     out = []
@@ -1047,7 +1118,8 @@ def run(ctx):
             ctx.notes.append(f"stage A+B {time.time() - t0:.1f}s")
             t0 = time.time()
             stage_options(sub)
-            ctx.notes.append(f"stage D {time.time() - t0:.1f}s")
+            stage_bundled_libs(sub)
+            ctx.notes.append(f"stage D+E {time.time() - t0:.1f}s")
         except Exception:  # noqa
             side_err.append(traceback.format_exc())
 
@@ -1090,7 +1162,9 @@ TRUSTED = [
     "translator harness/gen_c18.py (T1): scalar py types, wrapper table, TYPE_* constants, the quoting behaviour of every template site "
     "(determined by running the real generate_code on a probe and comparing with the real compiler objects), pydantic enum bound",
     "the denotation `denote` is a specification of how Python reads an annotation; it is validated against typing.get_type_hints of "
-    "CPython 3.12 on every text the printers emit (T3) but is not derived from CPython",
+    "CPython 3.12 on every text the printers emit, bare and through the three site kinds, and one-way on single-character damage (T3), "
+    "but is not derived from CPython; not modelled: implicit concatenation of adjacent string literals, keywords, non-ASCII names, "
+    "typing's removal of duplicate union members (denote keeps them: finer, so equal denotations stay equal)",
     "Python side: own .proto generator (harness/c18_protogen.py), tokenizer-based extraction of annotation text, per-variant "
     "import subprocesses, canonicalisation of resolved type hints",
     "grpc_tools.protoc 1.x as the front end; ruff is absent and replaced by a pass-through shim (import sorting / unused-import removal "
@@ -1112,9 +1186,10 @@ RULE = ("schemas: one systematic schema per run (every scalar kind x {singular, 
 
 def finish(ctx):
     return lib.finish(
-        ctx, "proof",
-        "Coq theorems over a Gallina mirror of the typing compilers, template quoting and field compilers + translation validation of "
-        "real plugin output under all six option combinations + cross-variant oracle on imported classes",
+        ctx, "translation_validation",
+        "translation validation with a proved model: Coq theorems over a Gallina mirror of the typing compilers, template quoting and "
+        "field compilers (the denotation inverts all three printers for every type AST) + every generated module of every option "
+        "combination compared with the model + cross-variant oracle on the imported classes",
         ASSUMPTIONS, TRUSTED, RULE,
         extra_cov={"exhaustive": False,
                    "explanation": "theorems are unbounded (every type AST, every compiler, every site); the correspondence and the "
